@@ -95,13 +95,16 @@ def replay_zmk(parts, master=None, kcvkeys=None):
     return False, 'ok', None
 
 
-def replay_two_cards(pin, pans, key):
+def replay_two_cards(pin, pans, key, objects=False):
     from cardutil import pinblock
     from cryptography.hazmat.primitives.ciphers import Cipher, modes
     from cryptography.hazmat.decrepit.ciphers import algorithms as d_algorithms
     try:
-        obj = pinblock.Iso4AESPinBlockWithVisaPVV(pin)
-        got = [obj.to_pvv(key, card_number=p) for p in pans]
+        if objects:
+            got = [pinblock.Iso0TDESPinBlockWithVisaPVV(pin, card_number=p).to_pvv(key) for p in pans]
+        else:
+            obj = pinblock.Iso4AESPinBlockWithVisaPVV(pin)
+            got = [obj.to_pvv(key, card_number=p) for p in pans]
     except Exception as ex:
         return True, '%s: %s' % (type(ex).__name__, ex), 'C14/pvv-exception/pin4'
     for k, (g, pan) in enumerate(zip(got, pans)):
